@@ -1,28 +1,43 @@
-"""Shared registry content of the signature / RSA-encryption areas (sig_dss, sig_eddsa, sig_rsa, pkcs1_enc).
+"""Shared registry content of the signature / RSA-encryption areas (sig_dss, sig_eddsa, sig_rsa, sig_pss, pkcs1_enc, enc_oaep).
 No units are defined here.
 
 Abstractions (all ASSUMED, named in the evidence of every unit that relies on them):
   * Crypto.Math.Numbers.Integer := spec.mathint.Integer, the exact-integer model of the Integer interface
     (C14 proves the back ends exact, C16 proves them interchangeable; bounded harness bounded/bigint.py).
+    Integer.random_range is a model (model_random_range): lo <= result <= hi, one draw of the caller's tape when a randfunc
+    is given and of the system tape otherwise (C18 proves IntegerBase.random_range).
   * hash objects: abstract class `abs.Hash` (ghost: algorithm id, data fed so far); digest() == spec.rfc8017.Hash(alg, data)
     with an EMPTY frame (C19: signers may only call digest()/new()/copy() on the caller's object); bounded/hashes.py.
   * Util.number.long_to_bytes / bytes_to_long: == I2OSP / OS2IP of RFC 8017 4.1 / 4.2 (bounded/number.py; C13).
-  * caller-supplied randfunc: ghost tape `rnd_tape(i)` = the bytes returned by the i-th call, ghost cursor st.ghost['rnd_cursor'].
+  * Util.strxor.strxor: byte-wise xor, uninterpreted (spec.rfc8017.xor) with its length fact.
+  * EccPoint operators over an abstract group (spec.fips186.pmul/padd/pinf/px): C06, bounded/ec.py.
+  * caller-supplied randfunc ('any:callable:randfunc'): ghost tape `rnd_tape(i)` = the bytes returned by the i-th call,
+    ghost cursor `rnd_cursor()`; the system entropy source has its own cursor `sys_cursor()`.
 """
 import z3
 
-from vf.pyvc.contracts import Contract, ClassContract
+from vf.pyvc.contracts import Contract, ClassContract, apply_contract
 from vf.pyvc import contracts as _c, interp as _i, loader
 from vf.pyvc.interp import ClassV
-from vf.pyvc.values import SOpaque, mk_bytes, mk_int, zint, is_intlike
+from vf.pyvc.values import SOpaque, Ref, HObj, mk_bytes, mk_int, zint, is_intlike, Unsupported
 from .base import base_registry
 
 INT = 'spec.mathint.Integer'
 OINT = 'obj:' + INT
 HASH = 'abs.Hash'
+OID = 'spec.rfc8017.OidStr'
+OHASH = 'obj:' + HASH
 N = 'Crypto.Util.number.'
+PT = 'Crypto.PublicKey._point.EccPoint'
+CURVE = 'Crypto.PublicKey._curve._Curve'
+RSA = 'Crypto.PublicKey.RSA.'
+RANDFUNC = 'any:callable:randfunc'
 
-RND_TAPE = z3.Function('rnd_tape', z3.IntSort(), z3.SeqSort(z3.BitVecSort(8)))
+_I = z3.IntSort()
+_B = z3.SeqSort(z3.BitVecSort(8))
+RND_TAPE = z3.Function('rnd_tape', _I, _B)
+RND_RANGE = z3.Function('rnd_range', _I, _I, _I, _I)      # (draw index, lo, hi) -> value drawn from the caller's tape
+SYS_RANGE = z3.Function('sys_range', _I, _I, _I, _I)      # the same from the system entropy source
 
 
 def _sf_rnd_tape(E, st, args, kw):
@@ -30,17 +45,28 @@ def _sf_rnd_tape(E, st, args, kw):
     return [('val', st, mk_bytes(RND_TAPE(zint(args[0]))))]
 
 
-_c.SPEC_FORMS['rnd_tape'] = _sf_rnd_tape
-_i.SPEC_BUILTINS['rnd_tape'] = _i.BuiltinV('spec.rnd_tape', _sf_rnd_tape)
-
-
 def _sf_rnd_cursor(E, st, args, kw):
-    """rnd_cursor(): number of calls of the caller-supplied randfunc made so far"""
+    """rnd_cursor(): number of draws made from the caller-supplied randfunc so far"""
     return [('val', st, st.ghost.get('rnd_cursor', 0))]
 
 
-_c.SPEC_FORMS['rnd_cursor'] = _sf_rnd_cursor
-_i.SPEC_BUILTINS['rnd_cursor'] = _i.BuiltinV('spec.rnd_cursor', _sf_rnd_cursor)
+def _sf_sys_cursor(E, st, args, kw):
+    """sys_cursor(): number of draws made from the system entropy source so far"""
+    return [('val', st, st.ghost.get('sys_cursor', 0))]
+
+
+def _sf_rnd_range(E, st, args, kw):
+    return [('val', st, mk_int(RND_RANGE(zint(args[0]), zint(args[1]), zint(args[2]))))]
+
+
+def _sf_sys_range(E, st, args, kw):
+    return [('val', st, mk_int(SYS_RANGE(zint(args[0]), zint(args[1]), zint(args[2]))))]
+
+
+for _nm, _fn in (('rnd_tape', _sf_rnd_tape), ('rnd_cursor', _sf_rnd_cursor), ('sys_cursor', _sf_sys_cursor),
+                 ('rnd_range', _sf_rnd_range), ('sys_range', _sf_sys_range)):
+    _c.SPEC_FORMS[_nm] = _fn
+    _i.SPEC_BUILTINS[_nm] = _i.BuiltinV('spec.' + _nm, _fn)
 
 
 def randfunc_hook(E, st, f, args, kwargs):
@@ -67,9 +93,116 @@ def randfunc_hook(E, st, f, args, kwargs):
     return outs
 
 
+def int_value(st, v):
+    """z3 term of an int or of an Integer model object"""
+    if isinstance(v, Ref):
+        h = st.heap[v.oid]
+        if h.kind == 'obj' and h.cls is not None and h.cls.qualname == INT:
+            return zint(h.fields['_value'])
+        raise Unsupported('not an Integer object')
+    return zint(v)
+
+
+def new_integer(st, value):
+    ci = loader.find_class(INT)
+    h = HObj('obj', cls=ci)
+    h.fields['_value'] = value
+    return st.alloc(h)
+
+
+def model_random_range(E, st, args, kwargs):
+    """IntegerBase.random_range(min_inclusive=, max_inclusive= | max_exclusive=, randfunc=None) as documented:
+    ValueError for unknown / contradictory / missing keywords and for an empty interval; otherwise an Integer in
+    [min_inclusive, max_inclusive] which is the next draw of the caller's tape (randfunc given) or of the system tape."""
+    kw = dict(kwargs)
+    lo, hi_inc, hi_exc, rf = kw.pop('min_inclusive', None), kw.pop('max_inclusive', None), kw.pop('max_exclusive', None), kw.pop('randfunc', None)
+    if kw or len(args) > 1:
+        return [('raise', st, _i.exc(ValueError, 'Unknown keywords'))]
+    if hi_inc is not None and hi_exc is not None:
+        return [('raise', st, _i.exc(ValueError, 'max_inclusive and max_exclusive cannot be both specified'))]
+    if lo is None or (hi_inc is None and hi_exc is None):
+        return [('raise', st, _i.exc(ValueError, 'Missing keyword to identify the interval'))]
+    zlo = int_value(st, lo)
+    zhi = int_value(st, hi_inc) if hi_inc is not None else int_value(st, hi_exc) - 1
+    outs = []
+    empty, ok = E.split(st, zhi < zlo)
+    if empty is not None:
+        outs.append(('raise', empty, _i.exc(ValueError, 'Conversion only valid for non-negative numbers')))
+    if ok is not None:
+        if rf is None:
+            cur = ok.ghost.get('sys_cursor', 0)
+            t = SYS_RANGE(zint(cur), zlo, zhi)
+            ok.ghost['sys_cursor'] = mk_int(zint(cur) + 1)
+        elif isinstance(rf, SOpaque) and rf.label.startswith('callable:randfunc'):
+            cur = ok.ghost.get('rnd_cursor', 0)
+            t = RND_RANGE(zint(cur), zlo, zhi)
+            ok.ghost['rnd_cursor'] = mk_int(zint(cur) + 1)
+        else:
+            raise Unsupported('random_range with a randfunc that is not the caller-supplied one')
+        ok.fact(z3.And(t >= zlo, t <= zhi))
+        outs.append(('val', ok, new_integer(ok, mk_int(t))))
+    return outs
+
+
+def _uf(E, st, name, *args):
+    """application of an uninterpreted spec symbol (same z3 symbol and facts as in clauses)"""
+    return _c.apply_opaque(E, name, st, [a if not isinstance(a, z3.ExprRef) else mk_int(a) for a in args], {})[0][2]
+
+
+def model_inverse(E, st, args, kwargs):
+    """Integer.inverse(modulus), exactly as spec.mathint.Integer.inverse states it (ZeroDivisionError for modulus 0, ValueError for
+    a negative modulus or when no inverse exists, otherwise modinv(x, m)), PLUS one ground instance of a trusted textbook fact
+    when the operand is syntactically a product a*b:  prime(m) and invertible(a, m) and invertible(b, m) ==> invertible(a*b, m)
+    (the units modulo m form a group; needed for the blinded inverse (blind * k)^-1 of EccKey._sign / DsaKey._sign)."""
+    self = args[0]
+    modulus = args[1] if len(args) > 1 else kwargs['modulus']
+    x, m = int_value(st, self), int_value(st, modulus)
+    outs = []
+    zero, nz = E.split(st, m == 0)
+    if zero is not None:
+        outs.append(('raise', zero, _i.exc(ZeroDivisionError, 'Modulus cannot be zero')))
+    if nz is None:
+        return outs
+    neg, pos = E.split(nz, m < 0)
+    if neg is not None:
+        outs.append(('raise', neg, _i.exc(ValueError, 'Modulus cannot be negative')))
+    if pos is None:
+        return outs
+    st = pos
+    inv = _uf(E, st, 'spec.mathint.invertible', x, m)
+    if z3.is_app(x) and x.decl().kind() == z3.Z3_OP_MUL and x.num_args() == 2:
+        a, b = x.arg(0), x.arg(1)
+        ia, ib = _uf(E, st, 'spec.mathint.invertible', a, m), _uf(E, st, 'spec.mathint.invertible', b, m)
+        pr = _uf(E, st, 'spec.mathint.prime', m)
+        st.fact(z3.Implies(z3.And(E.truth(pr, st), E.truth(ia, st), E.truth(ib, st)), E.truth(inv, st)))
+    no, yes = E.split(st, z3.Not(E.truth(inv, st)))
+    if no is not None:
+        outs.append(('raise', no, _i.exc(ValueError, 'No inverse value can be computed')))
+    if yes is not None:
+        outs.append(('val', yes, new_integer(yes, _uf(E, yes, 'spec.mathint.modinv', x, m))))
+    return outs
+
+
+_LONG_TO_BYTES = []
+
+
+def model_long_to_bytes(E, st, args, kwargs):
+    """long_to_bytes(n, blocksize=0) accepts Integer objects (through __index__/__int__): the operand is replaced by its
+    value, then the assumed I2OSP contract applies"""
+    n = args[0] if args else kwargs['n']
+    bs = args[1] if len(args) > 1 else kwargs.get('blocksize', 0)
+    if isinstance(n, Ref):
+        n = mk_int(int_value(st, n))
+    if isinstance(bs, Ref):
+        bs = mk_int(int_value(st, bs))
+    return apply_contract(E, _LONG_TO_BYTES[0], st, [n, bs], {})
+
+
 def add_integer(reg):
     reg.overrides['Crypto.Math.Numbers.Integer'] = ClassV(loader.find_class(INT))
     reg.add(ClassContract(INT, fields={'_value': 'int'}))
+    reg.models[INT + '.random_range'] = model_random_range
+    reg.models[INT + '.inverse'] = model_inverse
     reg.used.add('Crypto.Math.Numbers.Integer := spec.mathint.Integer (exact-integer model of the Integer interface; '
                  'assumed, C14/C16, bounded/bigint.py)')
 
@@ -78,7 +211,7 @@ def add_number(reg):
     """RFC 8017 4.1 I2OSP / 4.2 OS2IP as the contracts of Util.number (assumed; bounded/number.py, C13)"""
     reg.add(Contract(N + 'bytes_to_long', params={'s': 'bytes'}, returns='be(s)', pure=True, modifies=[], options={'exact': True},
                      assumed='OS2IP; bounded: bounded/number.py against int.from_bytes'))
-    reg.add(Contract(N + 'long_to_bytes', params={'n': 'int', 'blocksize': 'int'},
+    c = (Contract(N + 'long_to_bytes', params={'n': 'int', 'blocksize': 'int'},
                      raises={'ValueError': ('iff', 'n < 0 or blocksize < 0')}, result='bytes',
                      ensures={'value': 'be(result) == n',
                               'minimal': 'blocksize == 0 ==> (len(result) >= 1 and (n == 0 ==> result == bytes(1)) and (n > 0 ==> result[0] != 0))',
@@ -87,22 +220,89 @@ def add_number(reg):
                               'too_large': '(blocksize > 0 and n >= pow2(8 * blocksize)) ==> len(result) > blocksize'},
                      pure=True, modifies=[],
                      assumed='I2OSP, left-padded to a multiple of blocksize; bounded: bounded/number.py against int.to_bytes'))
+    reg.add(c)
+    del _LONG_TO_BYTES[:]
+    _LONG_TO_BYTES.append(c)
+    reg.models[N + 'long_to_bytes'] = model_long_to_bytes
+
+
+_HASH_NEW = Contract(HASH + '.new', params={'self': OHASH, 'data': 'bytes|none'}, result=OHASH,
+                     ensures={'alg': 'result.g_alg == self.g_alg and result.digest_size == self.digest_size and result.oid.g_id == self.oid.g_id',
+                              'data': 'result.g_data == (b"" if data is None else data)', 'fresh': 'result is not self'},
+                     modifies=[], assumed='new() returns a fresh object of the same algorithm (bounded/hashes.py, C03)')
+
+
+def model_hash_new(E, st, args, kwargs):
+    """h.new(data=None): the optional argument is made explicit, then the assumed contract _HASH_NEW applies"""
+    data = args[1] if len(args) > 1 else kwargs.get('data')
+    return apply_contract(E, _HASH_NEW, st, [args[0], data], {})
 
 
 def add_hash(reg):
-    """abstract hash object of Crypto.Hash (any algorithm): ghost g_alg (algorithm id), g_data (bytes fed so far)"""
-    reg.add(ClassContract(HASH, fields={'g_alg': 'int', 'g_data': 'bytes', 'digest_size': 'pos', 'oid': 'any:oid'},
+    """abstract hash object / hash module of Crypto.Hash (any algorithm): ghost g_alg (algorithm id), g_data (bytes fed so
+    far); `oid` is a spec.rfc8017.OidStr (ghost id g_id; the DER encoding of the OID is spec.rfc8017.oid_der(g_id))"""
+    reg.add(ClassContract(OID, fields={'g_id': 'int'}))
+    reg.add(ClassContract(HASH, fields={'g_alg': 'int', 'g_data': 'bytes', 'digest_size': 'pos', 'oid': 'obj:' + OID},
                           valid=['self.digest_size == spec.rfc8017.hlen(self.g_alg)'], abstract=True))
-    reg.add(Contract(HASH + '.digest', params={'self': 'obj:' + HASH}, returns='spec.rfc8017.Hash(self.g_alg, self.g_data)',
+    reg.add(Contract(HASH + '.digest', params={'self': OHASH}, returns='spec.rfc8017.Hash(self.g_alg, self.g_data)',
                      modifies=[], options={'exact': True},
                      assumed='hash value uninterpreted; digest() leaves the object unchanged (bounded/hashes.py k_hash, C03/C19)'))
-    reg.add(Contract(HASH + '.new', params={'self': 'obj:' + HASH, 'data': 'bytes|none'}, result='obj:' + HASH,
-                     ensures={'alg': 'result.g_alg == self.g_alg and result.digest_size == self.digest_size and result.oid is self.oid',
-                              'data': 'result.g_data == (b"" if data is None else data)', 'fresh': 'result is not self'},
-                     modifies=[], assumed='new() returns a fresh object of the same algorithm (bounded/hashes.py, C03)'))
-    reg.add(Contract(HASH + '.update', params={'self': 'obj:' + HASH, 'data': 'bytes'},
+    reg.models[HASH + '.new'] = model_hash_new
+    reg.add(Contract(HASH + '.update', params={'self': OHASH, 'data': 'bytes'},
                      sets={'self.g_data': 'old(self.g_data) + data'}, returns='self', modifies=['self.g_data'], options={'exact': True},
                      assumed='update() appends to the hashed data (bounded/hashes.py, C03/C09)'))
+
+
+def add_strxor(reg):
+    reg.add(Contract('Crypto.Util.strxor.strxor', params={'term1': 'bytes', 'term2': 'bytes', 'output': 'none'},
+                     requires=['output is None'],
+                     raises={'ValueError': ('iff', 'len(term1) != len(term2)')},
+                     returns='spec.rfc8017.xor(term1, term2)', modifies=[], options={'exact': True},
+                     assumed='byte-wise xor of two equal-length strings, uninterpreted (bounded/accel.py strxor)'))
+
+
+def add_points(reg):
+    """documented operator contracts of EccPoint over an abstract group (C06 proves them; bounded/ec.py k_scalar, k_group)"""
+    reg.add(ClassContract(PT, fields={'g_pt': 'int', 'g_curve': 'int'}))
+    reg.add(Contract(PT + '.__mul__', params={'scalar': 'int'}, result='obj:' + PT,
+                     raises={'ValueError': ('iff', 'scalar < 0')},
+                     ensures={'value': 'result.g_pt == spec.fips186.pmul(self.g_pt, int(scalar))', 'curve': 'result.g_curve == self.g_curve',
+                              'fresh': 'result is not self'},
+                     modifies=[], assumed='scalar multiplication of the abstract group; operands unchanged (C06; bounded/ec.py k_scalar)'))
+    reg.add(Contract(PT + '.__add__', params={'point': 'obj:' + PT}, result='obj:' + PT,
+                     raises={'ValueError': ('iff', 'point.g_curve != self.g_curve')},
+                     ensures={'value': 'result.g_pt == spec.fips186.padd(self.g_pt, point.g_pt)', 'curve': 'result.g_curve == self.g_curve',
+                              'fresh': 'result is not self and result is not point'},
+                     modifies=[], assumed='group law of the abstract group; operands unchanged (C06; bounded/ec.py k_group)'))
+    reg.add(Contract(PT + '.x', params={}, result=OINT,
+                     ensures={'value': 'result._value == spec.fips186.px(self.g_pt)'},
+                     modifies=[], assumed='affine x-coordinate, 0 for the point at infinity (C06; bounded/ec.py)'))
+    reg.add(Contract(PT + '.size_in_bits', params={}, result='pos', modifies=[],
+                     assumed='bit size of the field modulus of the curve (a positive constant of the curve); bounded/ec.py'))
+    reg.add(ClassContract(CURVE, fields={'order': OINT, 'G': 'obj:' + PT, 'g_id': 'int'},
+                          valid=['self.order._value >= 2', 'spec.mathint.prime(self.order._value)', 'self.G.g_curve == self.g_id']))
+
+
+def add_rsa_key(reg):
+    """RsaKey: n >= 3 odd (RSA.construct refuses even moduli), e >= 1; private components optional.
+    _encrypt is PROVED in sig_rsa (RSAEP/RSAVP1, RFC 8017 5.1.1/5.2.2); _decrypt_to_bytes (blinded CRT) is assumed to equal
+    I2OSP(c^d mod n, k) (DESIGN C07: the modular identities are P1 under the key invariants of C05)."""
+    reg.add(ClassContract(RSA + 'RsaKey',
+                          fields={'_n': OINT, '_e': OINT, '_d?': OINT},
+                          valid=['self._n._value >= 3', 'self._n._value % 2 == 1', 'self._e._value >= 1',
+                                 'not hasattr(self, "_d") or self._d._value >= 1']))
+    reg.add(Contract(RSA + 'RsaKey._encrypt', params={'plaintext': 'int'},
+                     raises={'ValueError': ('iff', 'not (0 <= plaintext and plaintext < self._n._value)')},
+                     returns='pow(plaintext, self._e._value, self._n._value)',
+                     ensures={'rsaep': 'result == pow(plaintext, self._e._value, self._n._value)',
+                              'range': '0 <= result and result < self._n._value'},
+                     modifies=[], result='int'))
+    reg.add(Contract(RSA + 'RsaKey._decrypt_to_bytes', params={'ciphertext': 'int'},
+                     raises={'ValueError': ('iff', 'not (0 <= ciphertext and ciphertext < self._n._value)'),
+                             'TypeError': ('iff', '0 <= ciphertext and ciphertext < self._n._value and not hasattr(self, "_d")')},
+                     returns='i2osp(pow(ciphertext, self._d._value, self._n._value), spec.rfc8017.octets(self._n._value))',
+                     modifies=[], options={'exact': True},
+                     assumed='RSADP with blinding and CRT == c^d mod n, I2OSP to k octets (DESIGN C07 P1; bounded/bigint.py, bounded/accel.py)'))
 
 
 def common_registry():
@@ -110,5 +310,62 @@ def common_registry():
     add_integer(reg)
     add_number(reg)
     add_hash(reg)
+    add_strxor(reg)
     reg.opaque_call_hook = randfunc_hook
     return reg
+
+
+# ---------------------------------------------------------------- contracts of functions that draw entropy
+# The tape cursors are ghost state outside the heap, which a Contract cannot update at a call site.  A contract that draws
+# entropy is therefore registered through add_entropy_contract: the PROVED contract carries the clause `entropy`
+# (sys_cursor() / rnd_cursor() advance by the stated number of draws -- checked against the real body, whose draws go through
+# model_random_range / randfunc_hook); at CALL SITES the same contract is applied without that clause and the cursors are
+# advanced by the same numbers.  Both are generated from one `draws` description, so they cannot disagree.
+
+def add_entropy_contract(reg, c, draws):
+    """draws(E, st, args, kwargs) -> list of (state, n_sys, n_rnd, clause text of the case or None); python ints"""
+    import copy
+    cases = draws(None, None, None, None)      # description call: [(None, n_sys, n_rnd, condition)]
+    parts = []
+    for _, ns, nr, cond in cases:
+        eq = 'sys_cursor() == old(sys_cursor()) + %d and rnd_cursor() == old(rnd_cursor()) + %d' % (ns, nr)
+        parts.append(eq if cond is None else '(old(%s) ==> (%s))' % (cond, eq))
+    c.ensures['entropy'] = ' and '.join(parts)
+    reg.add(c)
+    site = copy.copy(c)
+    site.ensures = {k: v for k, v in c.ensures.items() if k != 'entropy'}
+
+    def model(E, st, args, kwargs):
+        outs = []
+        for s1, ns, nr, _ in draws(E, st, args, kwargs):
+            sys0, rnd0 = s1.ghost.get('sys_cursor', 0), s1.ghost.get('rnd_cursor', 0)
+            for o in apply_contract(E, site, s1, args, kwargs):
+                if o[0] == 'val':
+                    o[1].ghost['sys_cursor'] = mk_int(zint(sys0) + ns)
+                    o[1].ghost['rnd_cursor'] = mk_int(zint(rnd0) + nr)
+                outs.append(o)
+        E.registry.used.add(c.target)
+        return outs
+    reg.models[c.target] = model
+    return c
+
+
+def draws_const(n_sys, n_rnd):
+    def draws(E, st, args, kwargs):
+        return [(st, n_sys, n_rnd, None)]
+    return draws
+
+
+def draws_by_randfunc(field='_randfunc'):
+    """one draw: from the system source when self.<field> is None, from the caller's tape otherwise"""
+    def draws(E, st, args, kwargs):
+        if E is None:
+            return [(None, 1, 0, 'self.%s is None' % field), (None, 0, 1, 'self.%s is not None' % field)]
+        out = []
+        sink = []
+        for s1, rf in E.getattr(args[0], field, st, sink):
+            out.append((s1, 1, 0, None) if rf is None else (s1, 0, 1, None))
+        if sink:
+            raise Unsupported('reading %s raised' % field)
+        return out
+    return draws
